@@ -101,6 +101,8 @@ def run(args):
 
         def one(p):
             props = target_props(p)
+            if not props:
+                return "%-60s not claimed (see meta.json: undetected_reason)" % os.path.relpath(p, VERIF), 0
             tmp = tempfile.mkdtemp(prefix="selftest_repo_", dir="/tmp")
             try:
                 subprocess.run(["cp", "-r", os.path.join(args.repo, "."), tmp], check=True)
@@ -134,6 +136,8 @@ def target_props(path):
     name = os.path.basename(path)
     if name == "patch.diff":
         meta = json.load(open(os.path.join(os.path.dirname(path), "meta.json")))
+        if meta.get("undetected_reason"):
+            return []
         return meta.get("detected_by") or [meta["breaks_property"]]
     if name.startswith("prefix_"):
         return PREFIX_PROPS[name[len("prefix_"):-len(".diff")]]
